@@ -58,7 +58,8 @@ def case_keys(rec, case):
     priv = ["pkcs8", "pkcs1"][(j // 10) % 2]
     pub = ["default", "pkcs1"][(j // 20) % 2]
     wd = rec.tmpdir()
-    prefix = os.path.join(wd, f"key{case['n']}")
+    stem = r.choice(["key", "key", "fw-1.2", "vendor.app", "k ey", "ключ", ".hidden", "a.b.c", "trailing."])
+    prefix = os.path.join(wd, f"{stem}{case['n']}" if r.random() < 0.5 else f"n{case['n']}_{stem}")
     x = r.random()
     route = "sub" if x < 0.01 else "cli" if x < 0.3 else "cmd"
     exc = None
@@ -80,6 +81,7 @@ def case_keys(rec, case):
         exc = e
     combo = f"{ktype}/{enc}/{priv}/{pub}"
     rec.count("keys:combo:" + combo)
+    rec.count("keys:prefix-with-dot" if "." in os.path.basename(prefix) else "keys:prefix-plain")
     rec.count("keys:route:" + route)
     full = dict(case, ktype=ktype, enc=enc, priv=priv, pub=pub, route=route)
     pf, uf = f"{prefix}_priv.{enc}", f"{prefix}_pub.{enc}"
